@@ -33,7 +33,7 @@ async fn run_case(c: Case, irr_port: u16) -> Value {
     if c.op != "none" {
         faults.push((c.op.clone(), c.occ, c.kind.clone()));
     }
-    let script = Script { running: e2e::running_config(&managed), faults, fail_connections: vec![], ephemeral_name: "bgpfu".into(), chunk: 0, slow_commit: vec![] };
+    let script = Script { running: e2e::running_config(&managed), faults, fail_connections: vec![], ephemeral_name: "bgpfu".into(), chunk: 0, slow_commit: vec![], faults_only_session: None, late_ms: 0 };
     let junos = match FakeJunos::start(script, Config::default()).await {
         Ok(j) => j,
         Err(e) => return json!({"harness_error": format!("fake junos: {e}")}),
